@@ -161,6 +161,16 @@ def main(argv=None):
     with mp.Pool(a.jobs, initializer=_init, initargs=(modname,)) as pool:
         results = pool.map(_job, jobs, chunksize=1)
 
+    # ---- second chance for solver timeouts: a variant with `unknown` obligations is re-proved alone (no load from the
+    #      other 15 workers) with three times the budget, so that a verdict does not flip because the machine was busy
+    retry = [i for i, r in enumerate(results) if any(o["status"] == "unknown" and not o["name"].endswith("/mustfail") for o in r["obligations"])]
+    if retry and len(retry) <= 12:
+        _init(modname)
+        for i in retry:
+            file, qual, variant, _, _ = jobs[i]
+            results[i] = _job((file, qual, variant, timeout_ms * 3, pid))
+            results[i]["retried"] = True
+
     # ---- extra (non-pyvc) obligations supplied by the contract module (finite back end, static scans)
     extra = []
     if hasattr(cm, "extra_obligations"):
